@@ -389,6 +389,17 @@ def connectFail (b : B) (c : Nat) (f : First) (authOk : Bool) : B × List Out :=
   let (b1, o1) := firstFail b0 c f authOk
   (b1, o0 ++ o1)
 
+/-- the connections `Server.Close` finds in `svr.svcs` that have not ended, in the order of their
+registration -/
+def liveIds (b : B) : List Nat := (b.conns.filter (fun cn => cn.alive)).map (·.id)
+
+/-- `Server.Close`: (the listeners and every outgoing ring are closed first - nothing can be written to
+any connection any more -, then) `stop()` for every connection, one after the other in the order of
+registration: each is the end of that connection WITHOUT a DISCONNECT - subscriptions removed, will
+published, clean session deleted.  What a will's fan-out addresses to another connection is lost or not
+according to how far that connection's sender has come; in-process callbacks receive it. -/
+def srvClose (b : B) : B × List Out := stopAll b (liveIds b)
+
 /-! ### packets on an accepted connection (`processIncoming`) -/
 
 def packet (b : B) (c : Nat) (p : Packet) : B × List Out :=
